@@ -162,3 +162,114 @@ Proof.
     repeat (destruct Hin as [<-|Hin]; [eexists; vm_compute; reflexivity|]). contradiction. }
   split; vm_compute; reflexivity.
 Qed.
+
+(* ================================================================ C02 AT TEXT LEVEL, DELETE (appended;
+   Model/PipelineFullW.v, Proofs/NarrowDeleteProofs.v).  [delete_text] is Model/PipelineW.v's twin of
+   NewOptimizer(q).BuildPlan(storage) polled until nil for a DELETE text (EmptyResultPlan with the
+   LIMIT dropped / DeletePlan [LimitPlan] over the narrowed scan node / the delete->remove shortcut
+   decided on the folded tree); [delete_text_full] is the SAME planned statement (same front end,
+   same folded filter, same LIMIT) run as DeletePlan [LimitPlan] over FullScanPlan.
+   [dfilter_answers q d]: the folded WHERE tree of the accepted text evaluates to true or false
+   (no error) on every stored pair. *)
+From KV Require Import Model.ScanSem Model.Write Model.Delete Model.PipelineW Model.PipelineFullW
+                       Proofs.DeleteProofs Proofs.NarrowDeleteProofs.
+
+(* every DELETE text the front end accepts, every strictly sorted store, every batch size >= 1,
+   with and without LIMIT, scan-and-delete and the RemovePlan shortcut alike: the forced-full-scan
+   twin accepts too and leaves the SAME store -- the store minus the pairs a full scan filtered pair
+   by pair selects, sliced by LIMIT in key order; neither run writes a pair; the keys the full scan
+   hands to BatchDelete are exactly the selected ones, every one of them is deleted by the narrowed
+   run as well, and every STORED key the narrowed run deletes is one of them (the shortcut also
+   hands the listed keys that are not stored to BatchDelete) *)
+Theorem delete_text_narrowed_eq_full :
+  forall (fo : fops) (re : bytes -> bytes -> res bool) (fmt_v : F fo -> string)
+         (q : string) (B : nat) (d : store),
+    1 <= B -> ssorted d -> dfilter_answers fo re fmt_v q d ->
+    forall (dp : dplan) (s1 : sstate),
+    delete_text fo re fmt_v q B (sinit d None) = (TOk dp, s1) ->
+    exists pl limit s2,
+      delete_plan_text fo re fmt_v q = TOk pl /\ delete_limit_text fo q = TOk limit /\
+      delete_text_full fo re fmt_v q B (sinit d None) = (TOk (dplan_over ScanIO.SFull limit), s2) /\
+      let sel := limit_slice limit (filter (Pipeline.filter_of fo re (dp_filter pl)) d) in
+      sdata s1 = sdata s2 /\
+      sdata s2 = filter (fun kv => negb (mem (fst kv) (map fst sel))) d /\
+      ssorted (sdata s2) /\
+      forallb no_put (slog s1) = true /\ forallb no_put (slog s2) = true /\
+      deleted_keys (slog s2) = map fst sel /\
+      (forall k, In k (deleted_keys (slog s2)) -> In k (deleted_keys (slog s1))) /\
+      (forall k, In k (map fst d) -> In k (deleted_keys (slog s1)) -> In k (deleted_keys (slog s2))).
+Proof. exact delete_text_narrowed_full. Qed.
+Print Assumptions delete_text_narrowed_eq_full.
+
+(* the other direction of "accepted": whenever the forced-full-scan twin runs, the narrowed one does *)
+Theorem delete_text_full_accepted_narrowed_accepted :
+  forall (fo : fops) (re : bytes -> bytes -> res bool) (fmt_v : F fo -> string)
+         (q : string) (B : nat) (d : store) (dp' : dplan) (s2 : sstate),
+    delete_text_full fo re fmt_v q B (sinit d None) = (TOk dp', s2) ->
+    exists dp s1, delete_text fo re fmt_v q B (sinit d None) = (TOk dp, s1).
+Proof. exact delete_text_full_accepted. Qed.
+Print Assumptions delete_text_full_accepted_narrowed_accepted.
+
+(* a text that is not accepted (rejected with its position, the model boundary): the two twins are
+   EQUAL (same outcome, store untouched), unconditionally and whatever scan node is forced *)
+Theorem delete_text_same_front :
+  forall (fo : fops) (re : bytes -> bytes -> res bool) (fmt_v : F fo -> string)
+         (sc : ScanIO.scan) (q : string) (B : nat) (s : sstate),
+    (forall dp, fst (delete_text fo re fmt_v q B s) <> TOk dp) ->
+    delete_text_over fo re fmt_v sc q B s = delete_text fo re fmt_v q B s.
+Proof. exact delete_text_front_same. Qed.
+Print Assumptions delete_text_same_front.
+
+(* ---- non-vacuity: scan-and-delete over a prefix scan under LIMIT; the RemovePlan shortcut (which
+   also hands the unstored key "zz" to BatchDelete: the full scan does not); an EmptyResultPlan whose
+   LIMIT buildDeletePlan drops.  The premise holds, both sides computed. *)
+Definition nd_q1 : string := "delete where key ^= 'a' & value != '9' limit 1, 5".
+Definition nd_q2 : string := "delete where key in ('a', 'c', 'zz')".
+Definition nd_q3 : string := "delete where key = 'a' & key = 'b' limit 1".
+
+Example delete_text_narrowed_nonvacuous :
+  forall (fo : fops) (re : bytes -> bytes -> res bool) (fmt_v : F fo -> string),
+  ssorted nt_store /\
+  dfilter_answers fo re fmt_v nd_q1 nt_store /\
+  dfilter_answers fo re fmt_v nd_q2 nt_store /\
+  dfilter_answers fo re fmt_v nd_q3 nt_store /\
+  (let n := delete_text fo re fmt_v nd_q1 2 (sinit nt_store None) in
+   let f := delete_text_full fo re fmt_v nd_q1 2 (sinit nt_store None) in
+   fst n = TOk (DScan (ScanIO.PLimit 1 5 (ScanIO.PScan (ScanIO.SPrefix "a")))) /\
+   fst f = TOk (DScan (ScanIO.PLimit 1 5 (ScanIO.PScan ScanIO.SFull))) /\
+   sdata (snd n) = [("a", "3"); ("ac", "9"); ("b", "2"); ("c", "1")] /\
+   sdata (snd f) = [("a", "3"); ("ac", "9"); ("b", "2"); ("c", "1")] /\
+   deleted_keys (slog (snd n)) = ["ab"] /\ deleted_keys (slog (snd f)) = ["ab"]) /\
+  (let n := delete_text fo re fmt_v nd_q2 1 (sinit nt_store None) in
+   let f := delete_text_full fo re fmt_v nd_q2 1 (sinit nt_store None) in
+   fst n = TOk (DRemove ["a"; "c"; "zz"]) /\
+   fst f = TOk (DScan (ScanIO.PScan ScanIO.SFull)) /\
+   sdata (snd n) = [("ab", "1"); ("ac", "9"); ("b", "2")] /\
+   sdata (snd f) = [("ab", "1"); ("ac", "9"); ("b", "2")] /\
+   deleted_keys (slog (snd n)) = ["a"; "c"; "zz"] /\ deleted_keys (slog (snd f)) = ["a"; "c"]) /\
+  (let n := delete_text fo re fmt_v nd_q3 32 (sinit nt_store None) in
+   let f := delete_text_full fo re fmt_v nd_q3 32 (sinit nt_store None) in
+   fst n = TOk (DScan (ScanIO.PScan ScanIO.SEmpty)) /\
+   fst f = TOk (DScan (ScanIO.PLimit 0 1 (ScanIO.PScan ScanIO.SFull))) /\
+   sdata (snd n) = nt_store /\ sdata (snd f) = nt_store).
+Proof.
+  intros.
+  assert (FA : forall q, (exists pl0, delete_plan_text fo re fmt_v q = TOk pl0 /\
+                  forall kv, In kv nt_store -> exists b, filter_row fo re (fst kv) (snd kv) (dp_filter pl0) = Ok b) ->
+               dfilter_answers fo re fmt_v q nt_store).
+  { intros q (pl0 & E0 & H0) pl Ep. rewrite E0 in Ep. injection Ep as <-. exact H0. }
+  split; [cbn; repeat split; reflexivity|].
+  split.
+  { apply FA. eexists. split; [vm_compute; reflexivity|].
+    intros kv Hin. cbn [In nt_store] in Hin.
+    repeat (destruct Hin as [<-|Hin]; [eexists; vm_compute; reflexivity|]). contradiction. }
+  split.
+  { apply FA. eexists. split; [vm_compute; reflexivity|].
+    intros kv Hin. cbn [In nt_store] in Hin.
+    repeat (destruct Hin as [<-|Hin]; [eexists; vm_compute; reflexivity|]). contradiction. }
+  split.
+  { apply FA. eexists. split; [vm_compute; reflexivity|].
+    intros kv Hin. cbn [In nt_store] in Hin.
+    repeat (destruct Hin as [<-|Hin]; [eexists; vm_compute; reflexivity|]). contradiction. }
+  cbv zeta. repeat split; vm_compute; reflexivity.
+Qed.
